@@ -240,17 +240,16 @@ class Output(BaseOutput):
             has_value = np.full(len(state), False)
             has_value[: len(state)] = state.alive
             for var in self.instance_variables:
-                # values = getattr(state, var)
-                self.nc.variables[var][self.local_record_count, has_value] = getattr(
-                    state, var
-                )[state.alive]
+                self.nc.variables[var][self.local_record_count, has_value] = (
+                    self.instance_values(state, var)[state.alive]
+                )
         elif self.layout == "sparse":
             count = len(state)  # Present number of particles
             start = self.local_instance_count
             end = start + count
             self.nc.variables["particle_count"][self.local_record_count] = count
             for var in self.instance_variables:
-                self.nc.variables[var][start:end] = getattr(state, var)
+                self.nc.variables[var][start:end] = self.instance_values(state, var)
 
         # Compute and save lon, lat if requested
         if self.lonlat:
@@ -289,6 +288,14 @@ class Output(BaseOutput):
                 self.nc = self.create_netcdf()
                 self.local_instance_count = 0
                 self.local_record_count = 0
+
+    def instance_values(self, state: State, var: str) -> np.ndarray:
+        """Values of an instance variable, time variables relative to reference time"""
+        values = getattr(state, var)
+        if state.dtypes.get(var) == np.dtype("datetime64[s]"):
+            delta = values.astype("M8[s]") - self.timer.reference_time
+            values = delta / np.timedelta64(1, self.time_unit)
+        return values
 
     def write_particle_variables(self, state: State) -> None:
         """Write all output particle variables
